@@ -33,6 +33,11 @@ RULE = (
     "foreign change at the agent, get, multiget on ONE client within the same second (equal "
     "request ids and datagrams): every answer is the agent's current value. Non-trivial: the agent was asked and "
     "answered; distinct by (operation, level, per-OID status pattern, fault)."
+    " The GETBULK on the wire must name exactly the caller's OIDs in order (duplicates includ"
+    "ed, generated deliberately); bulkget / multiget / multigetnext get list objects the chec"
+    "k keeps: unchanged after the call, and the same call repeated with the same objects give"
+    "s the same request and answer; answers of exactly 65505/65506/65507 octets on every leve"
+    "l; clients switched from the other community version with the same community string."
 )
 ASSUMPTIONS = [
     "reference agent conformant (vf/agent.py); count faults are injected at PDU level by the agent's pdu_hook and travel inside authentic (v3: signed/encrypted) responses",
